@@ -539,6 +539,7 @@ pub fn def() -> PropDef {
                 cases_quick: 40_000,
                 cases_thorough: 600_000,
                 max_shrink_iters: 4000,
+                limit_factor: 1,
                 strategy: case_strategy,
                 check: run_case,
             }),
